@@ -131,4 +131,9 @@ theorem rw_eigen_of_sym_vec (F : Fn α) (n : Nat) (hn : 0 < n) (a : Mat α) (reg
   have : s * s * av = s * s * d * s * vget u i - s * (s * (d * (s * vget u i) - av)) := by ring
   rw [this, h, h2]; ring
 
+/-- `D^{-1/2}` turns the Euclidean product into the degree-weighted one: with `r² = d`, `r ≠ 0`,
+    `d · (r⁺u) · (r⁺u') = u · u'` — orthonormal solver vectors give `D`-orthonormal `eigenvectors_`. -/
+theorem dinner_of_sqrt {r d : α} (h : r * r = d) (hr : r ≠ 0) (u u' : α) : d * (pinv r * u) * (pinv r * u') = u * u' := by
+  rw [pinv_of_ne hr, ← h]; field_simp
+
 end SkNet.Embedding
